@@ -124,6 +124,15 @@ func TestC03(t *testing.T) {
 				for i, n := 0, 20+rng.IntN(11); i < n; i++ {
 					op := ops.Gen(rng, m, cfg)
 					ioFails := op.Kind.Mutating() && rng.IntN(10) == 0
+					if rng.IntN(8) == 0 {
+						// leftovers of a save that a crash interrupted earlier: an abandoned, longer image beside the database
+						img, _ := os.ReadFile(path)
+						img = append(img, bytes.Repeat([]byte("\n{\"abandoned\":true}"), 1+rng.IntN(4000))...)
+						leftover := []string{".tmp", ".tmp0", ".tmp1234567890", ".new", "~", ".bak", ".lock"}[rng.IntN(7)]
+						os.WriteFile(path+leftover, img, 0o600)
+						trace = append(trace, "(stale file db"+leftover+" appears)")
+						r.Count("stale_sibling_files", 1)
+					}
 					var want, got ops.Result
 					if ioFails {
 						// the file system fails during this call: whatever it reports, only acknowledged effects may survive a restart
@@ -334,9 +343,47 @@ func TestC03(t *testing.T) {
 		}
 		if err := probeCounters(work, work+".probe", key, m); err != nil {
 			r.Violation("fixture-counter-lost", -1, name+": "+err.Error(), map[string]any{"fixture": name})
+			continue
+		}
+		// the server goes on working on the old file: every acknowledged change must survive the next restart too
+		fcfg := cfg
+		fcfg.Names = append([]string{"added-later"}, realdb.SortedNames(m)...)
+		frng := r.Rand(uint64(900000 + fi))
+		var ftrace []string
+		for step := 0; step < 12; step++ {
+			op := ops.Gen(frng, m, fcfg)
+			if step == 0 {
+				op = ops.Op{Kind: ops.Put, Name: "added-later", Value: []byte("written by the current build")}
+			}
+			want := ops.ApplyModel(m, nil, true, op)
+			got := ops.ApplyReal(d, su, op)
+			ftrace = append(ftrace, fmt.Sprintf("%s -> %s", op, got))
+			r.Eval(1)
+			if !ops.Agree(want, got) {
+				r.Violation("live-result-differs", -1, fmt.Sprintf("fixture %s, step %d (%s): real %s, model %s", name, step, op, got, want), map[string]any{"fixture": name, "history": ftrace})
+				break
+			}
+			d2, err := realdb.Open(work, key)
+			if err != nil {
+				r.Violation("reopen-fails", -1, fmt.Sprintf("fixture %s after %s: reopening with the same key failed: %v", name, op, err), map[string]any{"fixture": name, "history": ftrace})
+				break
+			}
+			re, err := realdb.Dump(d2)
+			if err != nil {
+				r.Violation("reopened-state-inconsistent", -1, fmt.Sprintf("fixture %s after %s: %v", name, op, err), map[string]any{"fixture": name, "history": ftrace})
+				break
+			}
+			if re.Canon() != m.Canon() {
+				r.Violation("restart-state-differs", -1, fmt.Sprintf("fixture %s after %s: state after restart %s, acknowledged state %s", name, op, re.Canon(), m.Canon()), map[string]any{"fixture": name, "history": ftrace})
+				break
+			}
+			r.Count("restarts_of_continued_fixtures", 1)
+			if frng.IntN(2) == 0 {
+				d = d2
+			}
 		}
 	}
-	r.Require("opens_of_files_with_other_modes", "restarts_after_io_failure", "restarts_after_concurrent_writes", "histories", "restarts", "restarts_after_acknowledged_mutation", "restarts_after_failed_mutation", "restarts_with_newest_version_deleted", "fixtures")
+	r.Require("opens_of_files_with_other_modes", "restarts_after_io_failure", "restarts_after_concurrent_writes", "histories", "restarts", "restarts_after_acknowledged_mutation", "restarts_after_failed_mutation", "restarts_with_newest_version_deleted", "fixtures", "restarts_of_continued_fixtures", "stale_sibling_files")
 	r.Rule("seeded random histories of 20-30 operations over 3 ordinary names (+ empty and reserved), with a restart (second db.Open of the same path, full-state comparison with the model, per-name next-version probe on a copy, before/after hash+inode+mtime of the file) after EVERY operation; the history continues on the reopened handle half of the time. Plus 6 fixture databases written by the pinned commit. Distinct = (kind of the operation preceding the restart, its outcome class, number of names) and one class per fixture")
 }
 
